@@ -28,7 +28,7 @@ Definition OtherThrown : Z := 8.
 Inductive jsval :=
 | VErrObj (cls : Z)   (* object whose internal value is an ottoError: a native error instance *)
 | VPlain              (* a primitive, or an object whose ToString completes *)
-| VStrThrows.         (* an object whose toString/valueOf throw or return objects: Value.string() panics *)
+| VStrThrows.         (* an object whose toString/valueOf throw or return objects: Value.string() raises a script exception *)
 
 (* Go values that can be the argument of panic() *)
 Inductive base :=
@@ -50,11 +50,6 @@ Definition base_is_js (b : base) : bool :=
   match b with BErrorPtr _ | BOttoError _ | BValue _ => true | _ => false end.
 Definition is_js (p : payload) : bool := base_is_js (eject p).
 
-(* a JS payload whose conversion to a Go error needs no call back into the script *)
-Definition base_safe (b : base) : bool :=
-  match b with BErrorPtr _ | BOttoError _ => true | BValue VStrThrows => false | BValue _ => true | _ => false end.
-Definition safe (p : payload) : bool := base_safe (eject p).
-
 (* ------------------------------------------------------ error.go catchPanic *)
 
 Inductive api_result := ARet | AErr (cls : Z) | APanic (p : payload).
@@ -65,17 +60,18 @@ Inductive api_result := ARet | AErr (cls : Z) | APanic (p : payload).
      case *Error: err = caught; return
      case ottoError: err = &Error{caught}; return
      case Value: if vl := caught.object(); vl != nil { if vl, ok := vl.value.(ottoError); ok { err = &Error{vl}; return } }
-                 err = errors.New(caught.string()); return }
+                 err = errors.New(caught.safeString()); return }
      panic(caught) } }()
-   caught.string() runs the script's toString/valueOf inside the deferred
-   function: if that throws, the new panic leaves catchPanic. *)
+   Value.safeString (since dae90c4) runs the script's toString/valueOf under its
+   own recover: if that throws, a fixed text stands in and the thrown object
+   still comes back as an error result. *)
 Definition catch_panic (p : payload) : api_result :=
   match eject p with
   | BErrorPtr c => AErr c
   | BOttoError c => AErr c
   | BValue (VErrObj c) => AErr c
   | BValue VPlain => AErr OtherThrown
-  | BValue VStrThrows => APanic (Exc (BOttoError TypeErr))
+  | BValue VStrThrows => AErr OtherThrown
   | b => APanic (Raw b)
   end.
 
